@@ -122,13 +122,13 @@ theorem iwo_select (O : Ops F) (hfin : ∀ x, O.fin x = true) (a b : Nat) (w : W
 objective never gets fewer copies; the worst gets exactly `a`, the best exactly `b`. -/
 theorem iwo_count (O : Ops F) (hcast : ∀ k : Nat, O.ofNat k = (k : F))
     (hmono : ∀ x y : F, x ≤ y → O.floorNat x ≤ O.floorNat y) (hnat : ∀ k : Nat, O.floorNat (k : F) = k)
-    (a b : Nat) (hab : a ≤ b) (worst bst : F) (hbw : bst ≤ worst) :
+    (hnan : ∀ x : F, O.isNaN x = false) (a b : Nat) (hab : a ≤ b) (worst bst : F) (hbw : bst ≤ worst) :
     (∀ o, bst ≤ o → a ≤ iwoCount O a b worst bst o ∧ iwoCount O a b worst bst o ≤ b) ∧
     (∀ o o', o ≤ o' → iwoCount O a b worst bst o' ≤ iwoCount O a b worst bst o) ∧
     (bst < worst → iwoCount O a b worst bst worst = a ∧ iwoCount O a b worst bst bst = b) :=
-  ⟨fun o ho => iwoCount_bounds O hcast hmono hnat a b hab worst bst o hbw ho,
-   fun o o' h => iwoCount_antitone O hcast hmono hnat a b worst bst o o' hbw h,
-   fun hlt => ⟨iwoCount_worst O hcast hmono hnat a b worst bst hlt, iwoCount_best O hcast hmono hnat a b hab worst bst hlt⟩⟩
+  ⟨fun o ho => iwoCount_bounds O hcast hmono hnat hnan a b hab worst bst o hbw ho,
+   fun o o' h => iwoCount_antitone O hcast hmono hnat hnan a b worst bst o o' hbw h,
+   fun hlt => ⟨iwoCount_worst O hcast hmono hnat hnan a b worst bst hlt, iwoCount_best O hcast hmono hnat hnan a b hab worst bst hlt⟩⟩
 
 /-- Counterexample (known finding): `max_selected < min_selected` is accepted by the constructor and
 `execute` panics on every non-empty evaluated finite population (`u32` subtraction overflow). -/
@@ -383,7 +383,7 @@ theorem tournament_whole_population_is_best (O : Ops F) (n : Nat) (ss : List (Li
 
 /-! ## Non-vacuity: the hypotheses are met by concrete non-trivial inputs (carrier ℚ). -/
 
-def exOps : Ops ℚ := ⟨fun _ => true, fun n => n, fun x => ⌊x⌋₊, fun b k => b ^ k⟩
+def exOps : Ops ℚ := ⟨fun _ => true, fun n => n, fun x => ⌊x⌋₊, fun b k => b ^ k, fun _ => false⟩
 def exPop : Pop ℚ := [⟨1, some 3⟩, ⟨2, some (-1)⟩, ⟨3, some 3⟩, ⟨4, some 0⟩]
 
 example : Evaluated exPop := by
@@ -401,7 +401,7 @@ example : select exOps (.randomWithoutRepetition 3) (.idx [2, 0, 3]) exPop
   simp [select_rwor, exPop, pick]
 example : ∃ o ∈ ([3, -1, 3, 0] : List ℚ), o ≤ 0 := ⟨-1, by simp, by norm_num⟩
 example : (∀ k : Nat, exOps.ofNat k = (k : ℚ)) ∧ (∀ x y : ℚ, x ≤ y → exOps.floorNat x ≤ exOps.floorNat y) ∧
-    (∀ k : Nat, exOps.floorNat (k : ℚ) = k) :=
-  ⟨fun _ => rfl, fun _ _ h => Nat.floor_mono h, fun k => Nat.floor_natCast k⟩
+    (∀ k : Nat, exOps.floorNat (k : ℚ) = k) ∧ (∀ x : ℚ, exOps.isNaN x = false) :=
+  ⟨fun _ => rfl, fun _ _ h => Nat.floor_mono h, fun k => Nat.floor_natCast k, fun _ => rfl⟩
 
 end MahfModel.Props.C11
